@@ -368,10 +368,22 @@ var soupFragments = []string{
 	"=", "==", "===", "!", "!=", "<", "<=", ">", ">=", "+", "++", "+=", "-", "--", "-=", "*", "%", ",", ";", ":", ".", "(", ")", "{", "}", "[", "]",
 	"let", "function", "if", "else", "while", "for", "return", "true", "false", "null", "lets", "iff", "a", "b1", "$", "_", "x$y",
 	" ", "  ", "\t", "\n", "\r", "\r\n", "\n\n",
+	// byte sequences a "helpful" lexer might strip, skip or normalise: BOM, NBSP, other Unicode spaces and line
+	// terminators, zero-width characters, numeric separators, HTML-like and hashbang comments, form feed / vertical tab
+	"\xef\xbb\xbf", "\xef\xbb", "\xc2\xa0", "\xe2\x80\xa9", "\xe2\x80\x8b", "\xe3\x80\x80", "\x0b", "\x0c", "\x85", "1_000", "0x1_f", "1__0", "1_", "_1",
+	"<!--", "-->", "#!", "#!x\n", "/**/", "/* c */", "\\\n", "\\\r\n", "0.", "0.e1", "0e", "00", "0b", "0B1", "0O7", "1n", "0xg", "\x7f", "\x1a",
+}
+
+// hostileStart returns a prefix that an input may begin with: the places where "start of input" special cases live.
+func hostileStart(r *rand.Rand) string {
+	return []string{"\xef\xbb\xbf", "\xef\xbb\xbf\xef\xbb\xbf", "#!/usr/bin/env node\n", "\x00", "\n", "\r\n", "\xff\xfe", "\xfe\xff", "\xef\xbb", " \xef\xbb\xbf", "//\xef\xbb\xbf\n", "\xc2\xa0"}[r.IntN(12)]
 }
 
 func genSoup(r *rand.Rand, n int) string {
 	var sb strings.Builder
+	if r.IntN(12) == 0 {
+		sb.WriteString(hostileStart(r))
+	}
 	for i := 0; i < n; i++ {
 		sb.WriteString(soupFragments[r.IntN(len(soupFragments))])
 	}
@@ -388,6 +400,9 @@ func genBytes(r *rand.Rand, n int) string {
 		} else {
 			b[i] = hotBytes[r.IntN(len(hotBytes))]
 		}
+	}
+	if r.IntN(12) == 0 {
+		return hostileStart(r) + string(b)
 	}
 	return string(b)
 }
@@ -461,6 +476,9 @@ func init() {
 				}
 				rd := gen.Render(prog, r, l.E, l.L)
 				lexCase(t, rd.Src, "program")
+				if r.IntN(4) == 0 {
+					lexCase(t, hostileStart(r)+rd.Src, "program after a hostile start (BOM, hashbang, NUL, ...)")
+				}
 				checkAgainstTokenTable(t, rd)
 				t.Distinct(rd.Src)
 			}},
